@@ -163,12 +163,16 @@ def coq_block(block, state):
             # TIFA analyses the body once and reads the condition again (at the line of the `while`)
             body = coq_block(st[2], state)
             items.append('(once %s %s %s)' % (cnat(l), clist([cnat(r) for r in st[1]]), body))
+        elif st[0] == 'for':
+            # TIFA analyses  for x in f(rs): B  as the straight-line block  x = f(rs); B
+            body = coq_block(st[3], state)
+            items.append(('splice', '(for_analysed %s %s %s %s)' % (cnat(l), cnat(st[1]), clist([cnat(r) for r in st[2]]), body)))
         else:
             raise ValueError('not in the branch subset')
     if not block:
         state['line'] += 1
     for it in reversed(items):
-        out = '(BCons %s %s)' % (it, out)
+        out = '(bapp %s %s)' % (it[1], out) if isinstance(it, tuple) else '(BCons %s %s)' % (it, out)
     return out
 
 
@@ -206,12 +210,14 @@ def correspondence(ctx):
                 out.append(('expr', rs or [rng.randrange(NVARS)]))
             elif k < 8:
                 out.append(('if', rs, while_block(depth - 1, rng.randrange(1, 3)), while_block(depth - 1, rng.randrange(0, 2))))
-            else:
+            elif k < 9:
                 out.append(('while', rs, while_block(depth - 1, rng.randrange(1, 3))))
+            else:
+                out.append(('for', rng.randrange(NVARS), rs, while_block(depth - 1, rng.randrange(1, 3))))
         return out
     for _ in range(150 if ctx.tier == 'quick' else 1500):
         b = while_block(2, rng.randrange(1, 5))
-        if any(x[0] == 'while' for x in flatten(b)):
+        if any(x[0] in ('while', 'for') for x in flatten(b)):
             progs.append((b, True))
     # fixed: the known shape (for over a possibly empty iterable)
     progs.append(([('for', 2, [], [('assign', 0, [])]), ('expr', [0])], True))
@@ -291,14 +297,14 @@ def correspondence(ctx):
                         ctx.violation('used-reported-unused', {'code': pl['code'], 'variable': name, 'flags': flags, 'tifa': t['issues'],
                                                               'why': '%s is read after its last assignment on every execution but is reported unused' % name})
         # ---- programs with while loops only: real TIFA = the model on the once-unrolled program (initialisation issues, as sets)
-        if ext and all(x[0] in ('assign', 'expr', 'if', 'while') for x in flatten(block)) and any(x[0] == 'while' for x in flatten(block)):
+        if ext and all(x[0] in ('assign', 'expr', 'if', 'while', 'for') for x in flatten(block)) and any(x[0] in ('while', 'for') for x in flatten(block)):
             st = {'line': 0}
             term = coq_block(block, st)
             issues = clist(['(%s, %s, %s)' % (cnat(l), cnat(int(n[1:])), 'InitProblem' if lab != 'possible_initialization_problem' else 'PossibleInitProblem')
                             for l, n, lab in init])
             while_items.append('(%s, %s)' % (term, issues))
             while_idx.append(pi)
-            ctx.count('while-program-compared-with-model')
+            ctx.count('loop-program-compared-with-model:' + '+'.join(sorted({x[0] for x in flatten(block) if x[0] in ('while', 'for')})))
         # ---- model vs implementation (branch subset only)
         if not ext:
             st = {'line': 0}
